@@ -11,8 +11,9 @@ Two families of cases, both driven from ctx.rng:
   model (HcipyVerif.ModeBasis) and compares canonical text.
 * **mirror cases**: a random history of actuator updates on DeformableMirror,
   SegmentedDeformableMirror or TipTiltMirror in which the harness keeps — and later edits in
-  place — the very array objects it handed to / received from the mirror.  Oracle: every read of
-  surface / opd / phase_for / forward equals IF · (current actuators).  Correspondence: the
+  place — the very array objects it handed to / received from the mirror, the arrays returned by
+  dm.surface included.  Oracle: every read of surface / opd / phase_for / forward equals
+  IF · (current actuators).  Correspondence: the
   heap-and-handle state machine HcipyVerif.Mirror.
 """
 import contextlib
@@ -289,11 +290,15 @@ def gen_basis_case(rng, big):
         bases.append(make_base_spec(rng, 'a%d' % k, 'A', mats['A'], form, grid, coltypes.get('A')))
     for k in range(2):
         bases.append(make_base_spec(rng, 'b%d' % k, 'B', mats['B'], str(rng.choice(FORMS_A)), grid, coltypes.get('B')))
+    if npix >= 2 and rng.random() < 0.15:      # (one pixel: a length-one vector passes the constructor's `shape[0] == 1` test for sparse rows)
+        # lists the constructor must reject: empty, ragged, mixing vectors and sparse rows
+        bases.append({'name': 'x0', 'mat': 'A', 'form': str(rng.choice(['bad-empty', 'bad-ragged', 'bad-mixed-vec-first', 'bad-mixed-row-first', 'bad-ragged-rows'])),
+                      'n': int(rng.integers(2, 5)), 'pos': int(rng.integers(1, 4)), 'tuple': bool(rng.random() < 0.3), 'grid_arg': False})
     case = {'type': 'basis', 'npix': npix, 'grid': grid, 'style': style,
             'mats': {k: enc_arr(v) for k, v in mats.items()}, 'coltypes': coltypes, 'bases': bases, 'ops': []}
     # the program: names and their mode counts are tracked so that operands exist
-    nm = {b['name']: mats[b['mat']].shape[1] for b in bases if b is not None}
-    cpx = {b['name']: np.iscomplexobj(mats[b['mat']]) for b in bases}
+    nm = {b['name']: mats[b['mat']].shape[1] for b in bases if not b['form'].startswith('bad-')}
+    cpx = {b['name']: np.iscomplexobj(mats[b['mat']]) for b in bases if not b['form'].startswith('bad-')}
     names = list(nm)
     nops = int(rng.integers(6, 13 if not big else 20))
     for t in range(nops):
@@ -361,12 +366,23 @@ def make_base_spec(rng, name, mat, M, form, grid, coltypes=None):
     if form == 'csc':
         ip, ix, d = raw_csc(rng, M, messy=bool(plain and rng.random() < 0.5))
         spec['csc'] = {'indptr': ip, 'indices': ix, 'data': enc_arr(np.array(d, dtype=M.dtype))}
+    if form == 'csr' and rng is not None and plain and rng.random() < 0.4:
+        # a CSR triple with explicit zeros / duplicate entries (the CSC triple of the transpose)
+        ip, ix, d = raw_csc(rng, M.T, messy=True)
+        spec['csr'] = {'indptr': ip, 'indices': ix, 'data': enc_arr(np.array(d, dtype=M.dtype))}
+    if form == 'coo' and rng is not None and plain and rng.random() < 0.4:
+        # COO triples in random order, with explicit zeros / duplicates
+        ip, ix, d = raw_csc(rng, M, messy=True)
+        col = [j for j in range(M.shape[1]) for _ in range(ip[j + 1] - ip[j])]
+        order = [int(x) for x in rng.permutation(len(ix))]
+        spec['coo'] = {'row': [ix[k] for k in order], 'col': [col[k] for k in order],
+                       'data': enc_arr(np.array([d[k] for k in order], dtype=M.dtype))}
     if form == 'rows':
         ip, ix, d = raw_csc(rng, M, messy=bool(plain and rng.random() < 0.3))
         d = np.array(d, dtype=M.dtype)
         spec['rows'] = {'idx': [ix[ip[j]:ip[j + 1]] for j in range(M.shape[1])],
                         'val': [enc_arr(d[ip[j]:ip[j + 1]]) for j in range(M.shape[1])],
-                        'fmt': str(rng.choice(['csr', 'csr', 'csc', 'csr_array']))}
+                        'fmt': str(rng.choice(['csr', 'csr', 'csc', 'csr_array'])), 'tuple': bool(rng.random() < 0.3)}
     spec['grid_arg'] = bool(grid and (form not in ('fields', 'tuple') or rng.random() < 0.5))
     if form in ('fields', 'tuple') and coltypes is not None and (spec['grid_arg'] or not grid) and rng.random() < 0.3:
         spec['nested'] = True      # modes as plain Python lists of Python numbers
@@ -375,6 +391,33 @@ def make_base_spec(rng, name, mat, M, form, grid, coltypes=None):
 
 # ---------------------------------------------------------------------------------------------
 # the real code: basis cases
+
+def build_bad_list(spec, npix):
+    """A list/tuple that cannot denote a matrix.  Returns (python object, model line)."""
+    form, n, pos = spec['form'], spec['n'], min(spec['pos'], spec['n'] - 1)
+    vec = lambda k, ln: np.arange(ln, dtype=float) + k                                   # noqa: E731
+    row = lambda k, ln: sp.csr_matrix(np.arange(ln, dtype=float)[None, :] + k + 1.0)    # noqa: E731  (no zeros: all stored)
+    dvec = lambda v: 'd|' + fmt_vec(v)                                                   # noqa: E731
+    drow = lambda r: 's|%d|%d|%s|%s' % (r.shape[0], r.shape[1], fmt_ints(r.indices), fmt_vec(r.data))  # noqa: E731
+    if form == 'bad-empty':
+        items, enc = [], []
+    elif form == 'bad-ragged':
+        items = [vec(k, npix + (1 if k == pos else 0)) for k in range(n)]
+        enc = [dvec(v) for v in items]
+    elif form == 'bad-ragged-rows':
+        items = [row(k, npix + (1 if k == pos else 0)) for k in range(n)]
+        enc = [drow(r) for r in items]
+    elif form == 'bad-mixed-vec-first':
+        items = [row(k, npix) if k == pos else vec(k, npix) for k in range(n)]
+        enc = [drow(r) if k == pos else dvec(r) for k, r in enumerate(items)]
+    elif form == 'bad-mixed-row-first':
+        items = [vec(k, npix) if k == pos else row(k, npix) for k in range(n)]
+        enc = [dvec(r) if k == pos else drow(r) for k, r in enumerate(items)]
+    else:
+        raise MachineryError('unknown form ' + form)
+    arg = tuple(items) if spec.get('tuple') else items
+    return arg, 'C14 new %s seq %s %s' % (spec['name'], 'tuple' if spec.get('tuple') else 'list', ';'.join(enc) if enc else '-')
+
 
 def make_grid(npix):
     import hcipy
@@ -392,16 +435,30 @@ def build_base(spec, M, grid, coltypes=None):
     ct = list(coltypes) if coltypes is not None else [M.dtype.name] * nmodes
     Mp = cast(M, promoted(ct, M.dtype).name)
     if form == 'dense':
-        return hcipy.ModeBasis(Mp.copy(), g), 'C14 new %s dense %d %d %s' % (name, npix, nmodes, fmt_mat(M))
+        return hcipy.ModeBasis(Mp.copy(), g), 'C14 new %s ndarray %d %d %s' % (name, npix, nmodes, fmt_mat(M))
     if form == 'csc':
         c = spec['csc']
         d = cast(dec_arr(c['data']), Mp.dtype.name)
         T = sp.csc_matrix((d, np.array(c['indices'], dtype=np.int32), np.array(c['indptr'], dtype=np.int32)), shape=(npix, nmodes))
-        return hcipy.ModeBasis(T, g), 'C14 new %s csc %d %d %s %s %s' % (name, npix, nmodes, fmt_ints(c['indptr']), fmt_ints(c['indices']), fmt_vec(d))
+        return hcipy.ModeBasis(T, g), 'C14 new %s spmat csc %d %d %s %s %s' % (name, npix, nmodes, fmt_ints(c['indptr']), fmt_ints(c['indices']), fmt_vec(d))
+    if form == 'csr' and 'csr' in spec:
+        c = spec['csr']
+        d = cast(dec_arr(c['data']), Mp.dtype.name)
+        T = sp.csr_matrix((d, np.array(c['indices'], dtype=np.int32), np.array(c['indptr'], dtype=np.int32)), shape=(npix, nmodes))
+        return hcipy.ModeBasis(T, g), 'C14 new %s spmat csr %d %d %s %s %s' % (name, npix, nmodes, fmt_ints(c['indptr']), fmt_ints(c['indices']), fmt_vec(d))
+    if form == 'coo' and 'coo' in spec:
+        c = spec['coo']
+        d = cast(dec_arr(c['data']), Mp.dtype.name)
+        T = sp.coo_matrix((d, (np.array(c['row'], dtype=np.int32), np.array(c['col'], dtype=np.int32))), shape=(npix, nmodes))
+        return hcipy.ModeBasis(T, g), 'C14 new %s spmat coo %d %d %s %s %s' % (name, npix, nmodes, fmt_ints(c['row']), fmt_ints(c['col']), fmt_vec(d))
     if form in ('csr', 'coo', 'csc_array'):
+        # the model is told what the SciPy object holds (its own index arrays), in its own format
         T = sp.csr_matrix(Mp) if form == 'csr' else (sp.coo_matrix(Mp) if form == 'coo' else sp.csc_array(Mp))
-        ip, ix, d = raw_csc(None, M, messy=False)
-        return hcipy.ModeBasis(T, g), 'C14 new %s csc %d %d %s %s %s' % (name, npix, nmodes, fmt_ints(ip), fmt_ints(ix), fmt_vec(np.array(d, dtype=M.dtype)))
+        if form == 'coo':
+            line = 'C14 new %s spmat coo %d %d %s %s %s' % (name, npix, nmodes, fmt_ints(T.row), fmt_ints(T.col), fmt_vec(T.data))
+        else:
+            line = 'C14 new %s spmat %s %d %d %s %s %s' % (name, 'csr' if form == 'csr' else 'csc', npix, nmodes, fmt_ints(T.indptr), fmt_ints(T.indices), fmt_vec(T.data))
+        return hcipy.ModeBasis(T, g), line
     if form in ('fields', 'tuple'):
         cols = [cast(M[:, j], ct[j]) for j in range(nmodes)]
         if spec.get('nested'):
@@ -409,7 +466,8 @@ def build_base(spec, M, grid, coltypes=None):
         elif grid is not None:
             cols = [hcipy.Field(c, grid) for c in cols]
         arg = cols if form == 'fields' else tuple(cols)
-        return hcipy.ModeBasis(arg, g), 'C14 new %s fields %d %s' % (name, npix, fmt_mat(M.T))
+        line = 'C14 new %s seq %s %s' % (name, 'list' if form == 'fields' else 'tuple', ';'.join('d|' + fmt_vec(M[:, j]) for j in range(nmodes)))
+        return hcipy.ModeBasis(arg, g), line
     if form == 'rows':
         r = spec['rows']
         rows = []
@@ -417,8 +475,11 @@ def build_base(spec, M, grid, coltypes=None):
             v = cast(dec_arr(val), ct[j])
             row = sp.csr_matrix((v, np.array(idx, dtype=np.int32), np.array([0, len(idx)], dtype=np.int32)), shape=(1, npix))
             rows.append(row if r['fmt'] == 'csr' else (row.tocsc() if r['fmt'] == 'csc' else sp.csr_array(row)))
-        line = 'C14 new %s rows %d %s %s' % (name, npix, ';'.join(fmt_ints(i) for i in r['idx']),
-                                            ';'.join(fmt_vec(dec_arr(v)) for v in r['val']))
+        if r.get('tuple'):
+            rows = tuple(rows)
+        line = 'C14 new %s seq %s %s' % (name, 'tuple' if r.get('tuple') else 'list',
+                                         ';'.join('s|%d|%d|%s|%s' % (rows[j].shape[0], rows[j].shape[1], fmt_ints(i), fmt_vec(dec_arr(v)))
+                                                  for j, (i, v) in enumerate(zip(r['idx'], r['val']))))
         return hcipy.ModeBasis(rows, g), line
     raise MachineryError('unknown form ' + form)
 
@@ -471,7 +532,20 @@ class BasisRun:
             M = mats[spec['mat']]
             form = spec['form']
             sparse_expected = form in ('csc', 'csr', 'coo', 'csc_array', 'rows')
-            self.count('form:' + form)
+            self.count('form:' + form + (' (raw triple, explicit zeros / duplicates)' if form in spec and form in ('csr', 'coo') else ''))
+            if form.startswith('bad-'):
+                arg, line = build_bad_list(spec, npix)
+                try:
+                    hcipy.ModeBasis(arg)
+                    got = 'accepted'
+                except ValueError:
+                    got = 'err value'
+                except Exception as e:  # noqa
+                    got = err_kind(e)
+                if got != 'err value':
+                    self.fail('constructor-ill-formed-list ' + form, 'ModeBasis(<%s list>) : %s, expected ValueError' % (form, got))
+                self.emit(line, got)
+                continue
             try:
                 b, line = build_base(spec, M, grid, coltypes.get(spec['mat']))
             except Exception as e:  # noqa
@@ -649,8 +723,17 @@ class BasisRun:
         elif kind == 'lstsq':
             a = obj[op['src']]; Ma, sa = ref[op['src']]
             n = Ma.shape[1]
-            if n == 0 or Ma.shape[0] == 0 or np.linalg.matrix_rank(Ma) < n:
-                self.count('lstsq:not-applicable (no or dependent modes)')
+            if n == 0 or Ma.shape[0] == 0:
+                self.count('lstsq:not-applicable (no modes or no points)')
+                return
+            if np.linalg.matrix_rank(Ma) < n:
+                # dependent modes: coefficients_for is not compared (any minimiser is acceptable), but the model has
+                # to decide "dependent" exactly here (lstsq_answers_iff_independent): the rule by which the harness
+                # selects the comparable cases (NumPy's rank of the exact small dyadic matrix) is the model's own
+                self.count('lstsq:dependent modes (model must answer err rank)')
+                if not op.get('nomodel'):
+                    y = Ma @ dec_arr(op['c']) if 'c' in op else dec_arr(op['y'])
+                    self.emit('C14 lstsq %s %s' % (op['src'], fmt_vec(y)), 'err rank')
                 return
             if np.linalg.cond(Ma) > COND_MAX:
                 self.count('lstsq:skipped-illconditioned')
@@ -714,10 +797,21 @@ def gen_mirror_case(rng, big):
     cur = 0
     nops = int(rng.integers(6, 16 if not big else 40))
     small = lambda: float(rng.integers(-4, 5)) / float(rng.choice([1, 2]))  # noqa: E731
+    nreads = 0                   # every read leaves the caller with one more surface array (number nreads-1)
     for _ in range(nops):
         r = rng.random()
+        if nreads > 0 and rng.random() < 0.12:
+            # the caller edits, in place, a surface array that dm.surface handed out earlier (mostly the latest)
+            j = nreads - 1 if rng.random() < 0.7 else int(rng.integers(0, nreads))
+            ops.append({'op': 'sedit', 'j': j, 'i': int(rng.integers(0, npix)), 'v': small(),
+                        'mode': str(rng.choice(['item', 'item', 'imul0', 'fill']))})
+            if rng.random() < 0.75:
+                ops.append({'op': 'read', 'how': str(rng.choice(['surface', 'surface', 'opd', 'forward']))})
+                nreads += 1
+            continue
         if r < 0.28:
             ops.append({'op': 'read', 'how': str(rng.choice(['surface', 'surface', 'surface', 'opd', 'phase_for', 'forward', 'backward']))})
+            nreads += 1
         elif r < 0.55 and nact > 0:
             # in-place edit: mostly the current array, sometimes one handed out earlier
             h = cur if rng.random() < 0.7 else int(rng.integers(0, nh))
@@ -725,10 +819,12 @@ def gen_mirror_case(rng, big):
                         'via': str(rng.choice(['handle', 'property'])) if h == cur else 'handle'})
             if rng.random() < 0.5:
                 ops.append({'op': 'read', 'how': 'surface'})
+                nreads += 1
         elif r < 0.60 and nact > 0:
             # a change far below any comparison tolerance (2^-30), in place
             ops.append({'op': 'nudge', 'h': cur, 'i': int(rng.integers(0, nact))})
             ops.append({'op': 'read', 'how': 'surface'})
+            nreads += 1
         elif r < 0.68:
             v = [small() for _ in range(nact)]
             if ops and rng.random() < 0.3:
@@ -794,6 +890,9 @@ class MirrorRun:
         self.counts = {}
         self.hits = {}       # line index -> 'hit' | 'miss' | None as observed on the implementation
         self.nontrivial = False
+        self.held = []       # (ordinal of the model read, the array object dm.surface returned), one per read op
+        self.sedited = False # the history so far contains an in-place edit of a returned surface array
+        self.nreads = 0      # reads of dm.surface so far (= model reads)
 
     def count(self, k):
         self.counts[k] = self.counts.get(k, 0) + 1
@@ -801,6 +900,19 @@ class MirrorRun:
     def emit(self, line, impl):
         self.lines.append(line)
         self.impl.append(impl)
+
+    def ideal(self, dm, exact):
+        """the cache-free evaluation on the running code (no property, no cache involved) against the model's
+        specification state machine (Spec.step alongside the cached mirror): surface and opd"""
+        a = np.asarray(dm.actuators)
+        free = np.asarray(dm.influence_functions.linear_combination(a))
+        idx = len(self.lines)
+        if exact:
+            self.emit('C14 mirror ideal', 'ok %s %s' % (fmt_vec(free), fmt_vec(2 * free)))
+        else:
+            self.numeric[idx] = np.concatenate([free, 2 * free])
+            self.emit('C14 mirror ideal', 'numeric')
+        self.count('mirror-ideal')
 
     def set_if(self, dm, grid, spec, first):
         """(re)define the influence functions; returns their dense matrix as the mirror reports it."""
@@ -920,6 +1032,37 @@ class MirrorRun:
                 if not np.array_equal(np.asarray(dm.actuators), np.array(op['z']) * op['rms']):
                     self.bad.append(('mirror-random', 'random(rms) did not set the actuators to randn·rms'))
                 last_mut = 'random'
+            elif o == 'sedit':
+                # the caller edits, in place, an array that an earlier read of dm.surface returned
+                ordinal, arr, seen = self.held[op['j']]
+                if not np.array_equal(np.asarray(arr), seen):
+                    self.bad.append(('returned-surface-overwritten', '%s: an array returned by dm.surface no longer holds what the caller last saw in it (changed behind the caller\'s back after %s)' % (kind, last_mut)))
+                mode = op.get('mode', 'item')
+                if mode == 'item':
+                    arr[op['i']] = op['v']
+                    edits = [(op['i'], op['v'])]
+                elif mode == 'imul0':
+                    arr *= 0
+                    edits = [(i, 0.0) for i in range(npix)]
+                else:
+                    arr[:] = op['v']
+                    edits = [(i, op['v']) for i in range(npix)]
+                for i, x in edits:
+                    self.emit('C14 mirror sedit %d %d %s' % (ordinal, i, rat(x)), 'ok')
+                idx = len(self.lines)
+                now = np.asarray(arr).copy()
+                self.held[op['j']][2] = now
+                if exact:
+                    self.emit('C14 mirror held %d' % ordinal, 'ok ' + fmt_vec(now))
+                else:
+                    self.numeric[idx] = now
+                    self.emit('C14 mirror held %d' % ordinal, 'numeric')
+                self.ideal(dm, exact)
+                self.count('mirror-sedit:' + mode)
+                self.count('mirror-sedit-target:' + ('latest' if op['j'] == len(self.held) - 1 else 'earlier'))
+                last_mut = 'edit-of-returned-surface'
+                self.sedited = True
+                self.nontrivial = True
             elif o == 'setif':
                 dm, IF = self.set_if(dm, grid, op, False)
                 self.emit('C14 mirror setif %d %d %s' % (IF.shape[0], IF.shape[1], fmt_mat(IF)), 'ok')
@@ -927,13 +1070,14 @@ class MirrorRun:
             elif o == 'read':
                 if dm.actuators is not handles[cur]:
                     self.bad.append(('mirror-actuator-identity', 'the mirror does not hold the array it was given / handed out'))
-                before = getattr(dm, '_actuators_for_cached_surface', ABSENT)
                 how = op['how']
                 a = np.asarray(dm.actuators, dtype=float).copy()
                 ref = IF @ a if nact > 0 else np.zeros(npix)
                 k = 2 * np.pi / wl
+                before = getattr(dm, '_actuators_for_cached_surface', ABSENT)
                 if how == 'surface':
-                    got = np.asarray(dm.surface); want = ref
+                    surf_obj = dm.surface
+                    got = np.asarray(surf_obj).copy(); want = ref
                 elif how == 'opd':
                     got = np.asarray(dm.opd); want = 2 * ref
                 elif how == 'phase_for':
@@ -946,19 +1090,41 @@ class MirrorRun:
                 ok_exact = got.shape == want.shape and np.array_equal(got, want)
                 ok_tol = got.shape == want.shape and bool(np.all(np.abs(got - want) <= TOL * max(1.0, float(np.abs(want).max(initial=0)))))
                 if not (ok_exact if (exact and how in ('surface', 'opd')) else ok_tol):
-                    self.bad.append(('stale-surface after-' + last_mut, '%s read through %s after %s is not (influence functions)·(current actuators): max deviation %.3g' % (
+                    self.bad.append(('stale-surface after-' + (last_mut if not self.sedited else 'edit-of-returned-surface'), '%s read through %s after %s is not (influence functions)·(current actuators): max deviation %.3g' % (
                         kind, how, last_mut, float(np.abs(got - want).max(initial=0)) if got.shape == want.shape else float('nan'))))
                 if not np.array_equal(np.asarray(dm.actuators, dtype=float), a):
                     self.bad.append(('read-changes-actuators', 'reading the surface changed the actuators'))
                 idx = len(self.lines)
                 self.hits[idx] = None if before is ABSENT else ('hit' if after is before else 'miss')
-                # the model always reports the surface itself; other read-outs are derived here
-                surf_now = np.asarray(dm.surface)
+                if how != 'surface':
+                    # the read-out evaluated dm.surface internally (one model read whose array nobody keeps);
+                    # the surface itself is then read by the caller (a second model read)
+                    if how == 'opd':
+                        # the model executes the opd read-out itself (readOpd): values and hit/miss are compared
+                        if exact:
+                            self.emit('C14 mirror opd', 'ok ' + fmt_vec(got))
+                        else:
+                            self.numeric[idx] = np.asarray(got).copy()
+                            self.emit('C14 mirror opd', 'numeric')
+                    else:
+                        self.emit('C14 mirror read', 'hit-only')
+                    self.nreads += 1
+                    before = getattr(dm, '_actuators_for_cached_surface', ABSENT)
+                    surf_obj = dm.surface
+                    after = getattr(dm, '_actuators_for_cached_surface', ABSENT)
+                    idx = len(self.lines)
+                    self.hits[idx] = None if before is ABSENT else ('hit' if after is before else 'miss')
+                surf_now = np.asarray(surf_obj).copy()
+                if how != 'surface' and not np.all(np.abs(surf_now - ref) <= TOL * max(1.0, float(np.abs(ref).max(initial=0)))):
+                    self.bad.append(('stale-surface after-' + (last_mut if not self.sedited else 'edit-of-returned-surface'), '%s: dm.surface after %s is not (influence functions)·(current actuators)' % (kind, last_mut)))
+                self.held.append([self.nreads, surf_obj, surf_now.copy()])
+                self.nreads += 1
                 if exact:
                     self.emit('C14 mirror read', 'ok ' + fmt_vec(surf_now))
                 else:
                     self.numeric[idx] = surf_now
                     self.emit('C14 mirror read', 'numeric')
+                self.ideal(dm, exact)
                 self.count('mirror-read:' + how)
                 self.count('mirror-read-after:' + last_mut)
                 if edited_since_read:
@@ -1050,12 +1216,32 @@ def directed_cases():
             {'op': 'alias', 'h': 1}, {'op': 'read', 'how': 'surface'}, {'op': 'edit', 'h': 1, 'i': 1, 'v': 4.0, 'via': 'handle'}, {'op': 'read', 'how': 'surface'},
             {'op': 'setif', 'M': _m([[2, 0, 0], [0, 2, 0], [0, 0, 2], [1, 1, 1]]), 'sparse': True}, {'op': 'read', 'how': 'surface'},
             {'op': 'assign', 'v': None}, {'op': 'read', 'how': 'surface'}]
+    # the caller edits surface arrays it received (audit round 4, D22f): hit path, miss path, an older array,
+    # read-outs that evaluate dm.surface internally
+    shist = [{'op': 'assign', 'v': [1.0, 2.0, 3.0]}, {'op': 'read', 'how': 'surface'},
+             {'op': 'sedit', 'j': 0, 'i': 0, 'v': 0.0, 'mode': 'imul0'}, {'op': 'read', 'how': 'surface'},
+             {'op': 'sedit', 'j': 1, 'i': 2, 'v': 7.0, 'mode': 'item'}, {'op': 'read', 'how': 'opd'},
+             {'op': 'edit', 'h': 1, 'i': 0, 'v': -1.0, 'via': 'handle'}, {'op': 'read', 'how': 'forward'},
+             {'op': 'sedit', 'j': 3, 'i': 1, 'v': 2.5, 'mode': 'fill'}, {'op': 'sedit', 'j': 0, 'i': 1, 'v': 1.5, 'mode': 'item'},
+             {'op': 'read', 'how': 'surface'}, {'op': 'flatten'}, {'op': 'sedit', 'j': 4, 'i': 3, 'v': 4.0, 'mode': 'item'},
+             {'op': 'read', 'how': 'surface'}, {'op': 'sedit', 'j': 5, 'i': 0, 'v': 1.0, 'mode': 'item'}, {'op': 'read', 'how': 'phase_for'}]
     for kind in ('dm-dense', 'dm-sparse'):
         out.append({'type': 'mirror', 'kind': kind, 'npix': 4, 'nact': 3, 'M': _m(A43), 'ops': hist})
+        out.append({'type': 'mirror', 'kind': kind, 'npix': 4, 'nact': 3, 'M': _m(A43), 'ops': shist})
+    out.append({'type': 'mirror', 'kind': 'tiptilt', 'npix': 4, 'nact': 2,
+                'ops': [{'op': 'assign', 'v': [1.0, 2.0]}, {'op': 'read', 'how': 'surface'}, {'op': 'sedit', 'j': 0, 'i': 0, 'v': 0.0, 'mode': 'imul0'},
+                        {'op': 'read', 'how': 'surface'}]})
+    out.append({'type': 'mirror', 'kind': 'seg-dense', 'npix': 4, 'nact': 6, 'S': _m([[1, 0], [1, 0], [0, 1], [0, 0]]),
+                'ops': [{'op': 'segset', 'id': 1, 'p': 1.0, 't': 0.5, 'tl': -0.5}, {'op': 'read', 'how': 'surface'},
+                        {'op': 'sedit', 'j': 0, 'i': 2, 'v': 9.0, 'mode': 'item'}, {'op': 'read', 'how': 'surface'}]})
     return out
 
 
 # ---------------------------------------------------------------------------------------------
+
+def is_read(line):
+    return line.endswith('mirror read') or line.endswith('mirror opd')
+
 
 def execute(case):
     return (BasisRun(case) if case['type'] == 'basis' else MirrorRun(case)).run()
@@ -1064,16 +1250,16 @@ def execute(case):
 def run(ctx):
     ctx.rule = ('basis cases: one or two random dyadic matrices (npix 0..6 [thorough: ..10], 0..5 modes, densities 0/0.3/0.6/1, '
                 '30% complex; in 45% of the cases every mode has its own dtype bool/int8/int64/float32/float64/complex128, mostly narrowest first, lists also as nested Python lists), each built through 4-7 of the input forms dense / raw CSC triple (explicit zeros, duplicate entries) / '
-                'CSR / COO / csc_array / list of fields / tuple of fields / list of sparse rows, with and without a grid, followed by 6-12 random '
+                'CSR / COO (as SciPy builds them, or raw triples with explicit zeros / duplicates / shuffled order) / csc_array / list of fields / tuple of fields / list or tuple of sparse rows (the model is given a description of the Python object and dispatches itself: fromInput), in 15% of the cases also a list the constructor must reject (empty, ragged, mixing vectors and sparse rows), with and without a grid, followed by 6-12 random '
                 'operations (linear_combination, __getitem__ with int / slice / index list / mask incl. negative, out-of-range, '
                 'length-one selections, __add__, extend, append, to_sparse, to_dense, coefficients_for of A·c and of general y when '
                 'the modes are independent with cond <= 1e3). mirror cases: DeformableMirror (dense/sparse influence functions), '
                 'SegmentedDeformableMirror (dense/sparse segments), TipTiltMirror with 6-15 operations: assign new array, re-assign an '
                 'array handed out earlier, in-place edit of the current or of an earlier array (through the kept handle or through '
                 'dm.actuators; also changes of 2^-30), +=, set_segment_actuators, flatten, random (draw patched to dyadic data), new influence functions / '
-                'segments, reads through surface / opd / phase_for / forward / backward. Exact comparison where all arithmetic is on '
+                'segments, reads through surface / opd / phase_for / forward / backward, in-place edits (item / *= 0 / fill) of a surface array that an earlier read of dm.surface returned (12% of the steps, mostly the latest array, 75% followed by a read). Exact comparison where all arithmetic is on '
                 'small dyadics, 1e-9 relative otherwise. Non-trivial: basis case with >=1 mode and >=1 derived basis; mirror case '
-                'with an in-place edit of the held array between two reads.')
+                'with an in-place edit of the held actuator array between two reads or an edit of a returned surface array.')
     ctx.assumptions += ['NumPy/SciPy indexing, hstack, dot and lstsq meet their specifications (the reference uses plain ndarray arithmetic and Python list indexing)',
                         'float arithmetic on the generated small dyadic numbers is exact',
                         'coefficients_for is only compared for independent modes with condition number <= 1e3']
@@ -1122,24 +1308,28 @@ def run(ctx):
                 continue
             ctx.traces_validated += 1
             stream = 'C14 ' + ' '.join(r.lines[j].split()[1:3 if r.lines[j].split()[1] == 'mirror' else 2])
-            if want == 'numeric':
+            if want == 'hit-only':
+                pass
+            elif want == 'numeric':
                 if got.startswith('err rank'):
                     ctx.disagree(stream, {'line': r.lines[j], 'impl': 'independent modes', 'model': got})
                     break
                 vec = parse_vec(got.split()[1])
+                if r.lines[j].endswith('mirror ideal') and got.startswith('ok'):
+                    vec = np.concatenate([vec, parse_vec(got.split()[2])])
                 x = np.asarray(r.numeric[j])
                 if vec.shape != x.shape or not np.all(np.abs(vec - x) <= TOL * max(1.0, float(np.abs(vec).max(initial=0)))):
                     key = None
                     ctx.disagree(stream, {'line': r.lines[j], 'impl': fmt_vec(x), 'model': got, 'case': case}, key=key)
                     break
-            elif r.lines[j].endswith('mirror read'):
+            elif is_read(r.lines[j]):
                 if got.rsplit(' ', 1)[0] != want:
                     ctx.disagree(stream, {'line': r.lines[j], 'impl': want, 'model': got, 'case': case})
                     break
             elif got != want:
                 ctx.disagree(stream, {'line': r.lines[j], 'impl': want, 'model': got, 'case': case})
                 break
-            if r.lines[j].endswith('mirror read') and getattr(r, 'hits', {}).get(j) is not None:
+            if is_read(r.lines[j]) and getattr(r, 'hits', {}).get(j) is not None:
                 hit_cmp += 1
                 ctx.count('mirror-cache:' + r.hits[j])
                 if got.rsplit(' ', 1)[1] != r.hits[j]:
